@@ -1,9 +1,10 @@
 //! Instrument universe of the engine-level drivers (spec/EngineCore.tla):
 //!   exchange 0 = BinanceSpot: i0 spot btc/usdt, i1 perpetual btc/usdt (same underlying as i0),
-//!                             i2 spot eth/usdt
-//!   exchange 1 = Kraken:      i3 spot btc/usdt
+//!                             i2 spot btc/usdc (same base, other quote),
+//!                             i3 spot eth/usdt (same quote, other base)
+//!   exchange 1 = Kraken:      i4 spot btc/usdt
 //! so that exchange-, instrument- and underlying-filters all select different sets.
-//! Asset indices: 0 btc@0, 1 eth@0, 2 usdt@0, 3 btc@1, 4 usdt@1.  `assert_layout` checks this.
+//! Asset indices: 0 btc@0, 1 eth@0, 2 usdc@0, 3 usdt@0, 4 btc@1, 5 usdt@1.  `assert_layout` checks this.
 use barter::engine::state::{
     EngineState, global::DefaultGlobalData, instrument::data::DefaultInstrumentMarketData,
     trading::TradingState,
@@ -24,16 +25,17 @@ use rust_decimal::Decimal;
 pub type State = EngineState<DefaultGlobalData, DefaultInstrumentMarketData>;
 
 pub const EXCHANGES: [ExchangeId; 2] = [ExchangeId::BinanceSpot, ExchangeId::Kraken];
-pub const N_INST: usize = 4;
+pub const N_INST: usize = 5;
 /// exchange index of each instrument index
-pub const EX_OF: [usize; 4] = [0, 0, 0, 1];
+pub const EX_OF: [usize; 5] = [0, 0, 0, 0, 1];
 /// first asset index of each exchange (used for balance events)
-pub const FIRST_ASSET: [usize; 2] = [0, 3];
+pub const FIRST_ASSET: [usize; 2] = [0, 4];
 
 pub fn instruments() -> IndexedInstruments {
     IndexedInstruments::builder()
-        .add_instrument(Instrument::spot(ExchangeId::Kraken, "d_kraken_btc_usdt", "XBT/USDT", Underlying::new("btc", "usdt"), None))
-        .add_instrument(Instrument::spot(ExchangeId::BinanceSpot, "c_binance_eth_usdt", "ETHUSDT", Underlying::new("eth", "usdt"), None))
+        .add_instrument(Instrument::spot(ExchangeId::Kraken, "e_kraken_btc_usdt", "XBT/USDT", Underlying::new("btc", "usdt"), None))
+        .add_instrument(Instrument::spot(ExchangeId::BinanceSpot, "d_binance_eth_usdt", "ETHUSDT", Underlying::new("eth", "usdt"), None))
+        .add_instrument(Instrument::spot(ExchangeId::BinanceSpot, "c_binance_btc_usdc", "BTCUSDC", Underlying::new("btc", "usdc"), None))
         .add_instrument(Instrument::new(
             ExchangeId::BinanceSpot,
             "b_binance_btc_usdt_perp",
@@ -59,12 +61,15 @@ pub fn engine_state(trading: TradingState) -> State {
 
 pub fn assert_layout(st: &State) {
     let names: Vec<String> = st.instruments.0.keys().map(|k| k.to_string()).collect();
-    assert_eq!(names, ["a_binance_btc_usdt", "b_binance_btc_usdt_perp", "c_binance_eth_usdt", "d_kraken_btc_usdt"], "world2 layout");
+    assert_eq!(names, ["a_binance_btc_usdt", "b_binance_btc_usdt_perp", "c_binance_btc_usdc", "d_binance_eth_usdt", "e_kraken_btc_usdt"], "world2 layout");
     for (i, (_, is)) in st.instruments.0.iter().enumerate() {
         assert_eq!(is.instrument.exchange.index(), EX_OF[i], "world2 exchange of instrument {i}");
     }
     assert_eq!(st.instruments.0[0].instrument.underlying, st.instruments.0[1].instrument.underlying);
-    assert_eq!(st.assets.0.len(), 5);
+    assert_eq!(st.assets.0.len(), 6);
+    assert_ne!(st.instruments.0[0].instrument.underlying, st.instruments.0[2].instrument.underlying);
+    assert_eq!(st.instruments.0[0].instrument.underlying.base, st.instruments.0[2].instrument.underlying.base);
+    assert_eq!(st.instruments.0[0].instrument.underlying.quote, st.instruments.0[3].instrument.underlying.quote);
     for (e, first) in FIRST_ASSET.iter().enumerate() {
         assert_eq!(st.assets.0.get_index(*first).unwrap().0.exchange, EXCHANGES[e]);
     }
